@@ -10,9 +10,13 @@ if [ -f harness/shim/setup_shim.py ]; then
   (cd harness/shim && /venv/bin/python setup_shim.py build_ext --inplace -q >/dev/null 2>&1 || /venv/bin/python setup_shim.py build_ext --inplace)
 fi
 cd lean
-mods=""
-for f in Cherab/Props/C*.lean; do b=$(basename "$f" .lean); mods="$mods Cherab.Props.$b"; done
-drvs=""
-for f in Driver/C*.lean; do b=$(basename "$f" .lean | tr 'C' 'c'); drvs="$drvs drv_$b"; done
-./lk $mods $drvs
+# build the theorem modules and native drivers of every property claimed in MANIFEST.json
+ids=$(/venv/bin/python -c "import json; print(' '.join(c['property_id'] for c in json.load(open('../MANIFEST.json'))['checks']))")
+targets=""
+for id in $ids; do
+  for f in Cherab/Props/${id}*.lean; do [ -f "$f" ] && targets="$targets Cherab.Props.$(basename "$f" .lean)"; done
+  low=$(echo "$id" | tr 'C' 'c')
+  targets="$targets drv_$low"
+done
+./lk $targets || echo "WARNING: some Lean targets failed to build; the affected checks will report it"
 echo "setup complete"
